@@ -55,11 +55,13 @@ JudgeC11(e) ==
                  body == ObsReach(cfg, f.entry)
                  ns == SeqSet(f.nodes)
                  rets == { i \in ns : KN(cfg, i) \in {"ret", "merge"} /\ i # f.exit }
-             IN (IF body \ ns # {} THEN << "C11:body:missing-nodes" >> ELSE <<>>)
-                \o (IF ns \ body # {} THEN << "C11:body:extra-nodes" >> ELSE <<>>)
-                \o (IF f.exit \notin ns THEN << "C11:exit:not-in-body" >> ELSE <<>>)
-                \o (IF f.exit >= 1 /\ f.exit <= NN(cfg) /\ KN(cfg, f.exit) # "ret" THEN << "C11:exit:not-a-return" >> ELSE <<>>)
-                \o (IF \E i \in rets : f.exit \notin ObsReach(cfg, i) THEN << "C11:exit:return-not-merged" >> ELSE <<>>)
+                 q == IF \E i \in 1..NN(cfg) : Cardinality(SeqSet(cfg.nodes[i].funcs)) >= 2
+                      THEN ":functions-share-code" ELSE ":no-shared-code"
+             IN (IF body \ ns # {} THEN << "C11:body:missing-nodes" \o q >> ELSE <<>>)
+                \o (IF ns \ body # {} THEN << "C11:body:extra-nodes" \o q >> ELSE <<>>)
+                \o (IF f.exit \notin ns THEN << "C11:exit:not-in-body" \o q >> ELSE <<>>)
+                \o (IF f.exit >= 1 /\ f.exit <= NN(cfg) /\ KN(cfg, f.exit) # "ret" THEN << "C11:exit:not-a-return" \o q >> ELSE <<>>)
+                \o (IF \E i \in rets : f.exit \notin ObsReach(cfg, i) THEN << "C11:exit:return-not-merged" \o q >> ELSE <<>>)
                 \o (IF f.label \notin SeqSet(cfg.nodes[f.entry].labels) THEN << "C11:table:label-not-on-entry" >> ELSE <<>>)
            own(i) ==
              IF SeqSet(cfg.nodes[i].funcs) # { cfg.funcs[k].entry : k \in { r \in Rows(cfg) : i \in SeqSet(cfg.funcs[r].nodes) } }
